@@ -19,8 +19,12 @@ where
 {
     fn write_xml(&self, writer: &mut W) -> WriterResult<()> {
         for (operation_name, operation) in &self.operations {
-            // the name is schema text: keep it from closing the comment
-            writeln!(writer, "\n/* {} */\n", operation_name.replace("*/", "* /"))?;
+            // the name is schema text: keep it from closing the comment or opening a nested one
+            writeln!(
+                writer,
+                "\n/* {} */\n",
+                operation_name.replace("*/", "* /").replace("/*", "/ *")
+            )?;
 
             // input
             let operation_name = xml_name_to_rust_name(operation_name);
